@@ -81,6 +81,11 @@ CHECKS = {
    technique="TLA+ spec ServerAuth.tla (endpoint x credential form x access configuration x trust history) model-checked with TLC; every reachable combination sent as a hand-built HTTP request to a live sos_server on loopback with before/after comparison of the account's server state",
    text="ServerAuth.tla decides for every access configuration (none, allow, allow-without-A, deny, deny-other, allow+deny), trust history (second device trusted, then revoked through the device event log), API endpoint (16 route/method pairs incl. files and the websocket upgrade) and credential form (none, malformed, unknown key, another account's device key, trusted key over other bytes / another path, legacy token formats, missing account header, trusted key, second device) whether a request may be accepted; TLC checks AcceptOnlyIfTrusted, DenyListWins and RefusedUnchanged on all reachable combinations. Each is replayed against a real server process-internal instance over HTTP: refused combinations must answer 400/401/403 and leave sync status, device set and every file under the server data directory unchanged; accepted combinations must not be rejected by authorisation; the server must still answer at the end.",
    note="Accepted-expected cases are not sent for DELETE /sync/account and the websocket upgrade; the route table is a constant of MC_ServerAuth.tla (a newly added unauthenticated route would not be noticed); Ed25519 unforgeability."),
+ "C17": dict(
+   level="model_checking", design="DESIGN.md 6.10, 7 (C17)",
+   technique="TLA+ specs Upload.tla (server receive_file steps for concurrent uploads under the file lock) and Files.tla (file-secret edits, transfer queue, log push, reader sync, downloads) model-checked with TLC; every terminal upload schedule replayed as gated streaming PUT requests against a live server; simulated file behaviours replayed on two NetworkAccount devices and a live server with set comparison against FileReducer",
+   text="Upload.tla: create-temp / write-chunk / verify+rename / guard / abort of two uploads of one name, with the file_operation_lock; TLC checks NoPartialExposed, BadRefused, NoLeftovers, GoodAccepted (and shows the lock is what prevents an exposed corrupt file). All terminal schedules of the faithful model plus the racing schedules of the lock-less model are executed against PUT /api/v1/sync/file with bodies streamed chunk by chunk (correct, altered, truncated, empty, extended, dropped connection): the file readable under its name, on disk and through GET, must hash to the name after every step; wrong bodies must not be accepted; no temp file may remain; statuses must equal the model's on faithful schedules. Files.tla: CreateFile / UpdateFile / MoveFile / DeleteSecret / DeleteFolder on the editor, the transfer queue with normalize and MovedMissing, PushLog, SyncReader, Download; TLC checks EditorExact, ServerExact, ReaderExact, ServerSubset. Behaviours are executed on two NetworkAccount devices (real file transfers over HTTP): after every edit the editor's blob set = FileReducer(file log) = model set, each blob hashes to its name, the touched blob decrypts to the original bytes; within the settle time the server's blob set = reduce(server file log) = reduce(editor log) with no stray files; after each reader sync the reader's blob set = reduce(its file log).",
+   note="Settle time 25 s per step; only the first device edits (as the property's quantifier says); file-system backend; attachments as custom fields are covered by C03's behaviours but not by the set comparison here."),
  "C18": dict(
    level="model_checking", design="DESIGN.md 6.4, 7 (C18)",
    technique="TLA+ spec Account.tla behaviours (TLC transition tour) replayed on LocalAccount; at the end of behaviours export -> import into empty storage -> compare; single-entry mutations of the archive enumerated and imported into a jail directory",
